@@ -320,7 +320,7 @@ func (t *FnTrans) builtin(x *ssa.Call, bi *ssa.Builtin, c *ssa.CallCommon, args 
 				f := t.declareFun("map.len", []string{"Int"}, t.mode.idxSort())
 				r := scalar(intT, t.declare(t.fresh("maplen"), t.mode.idxSort()))
 				_ = f
-				t.assume(reach, t.cmpIdx(">=", r.S, t.mode.intLit64(0, 64)), "len(map) >= 0")
+				t.assume(reach, and(t.cmpIdx(">=", r.S, t.mode.intLit64(0, 64)), t.cmpIdx("<=", r.S, t.mode.intLit(pow2(48), 64))), "0 <= len(map) <= 2^48")
 				t.setVal(x, r)
 				return
 			}
@@ -877,6 +877,15 @@ func (t *FnTrans) siteHook(kind string, in ssa.Instruction, b *ssa.BasicBlock, i
 				env.vars[fmt.Sprintf("result%d", i)] = t.val(a)
 			}
 		}
+		if lk, ok := in.(*ssa.Lookup); ok {
+			// map read (hook runs after the instruction): value / ok of the lookup
+			v := t.val(lk)
+			if v.K == VTuple && len(v.Sub) == 2 {
+				env.vars["value"], env.vars["ok"] = v.Sub[0], v.Sub[1]
+			} else {
+				env.vars["value"] = v
+			}
+		}
 		for _, c := range s.Assumes {
 			t.assumps = append(t.assumps, Assump{Guard: reach, F: Formula{Clause: c, Env: env}, Why: "site assume (UNCHECKED)"})
 		}
@@ -1025,6 +1034,10 @@ func (t *FnTrans) siteOrdinal(s *SiteSpec, kind string, in ssa.Instruction) int 
 				}
 			case *ssa.MapUpdate:
 				if kind == "mapupdate" {
+					text, ok = t.srcText(x.Pos()), true
+				}
+			case *ssa.Lookup:
+				if kind == "mapread" {
 					text, ok = t.srcText(x.Pos()), true
 				}
 			case *ssa.Return:
